@@ -9,6 +9,7 @@ CONSTANTS
   RDelims <- MCRDelims
   MaxParts = 2
   MaxOps = 1
+  MaxRetry = 1
   ContentSel = {1, 2, 3, 4, 5, 6, 7, 9, 10, 12}
   ProfileSel = {1, 3}
   UseJson = TRUE
@@ -24,6 +25,7 @@ CONSTANTS
 INVARIANT ParseOfEncodeIsForm
 INVARIANT LimitsExactAtThreshold
 INVARIANT ContentExact
+INVARIANT SizeFailureSticks
 INVARIANT CorruptionIsErrorOrWellDefined
 PROPERTY MCBufferLimitExact
 PROPERTY MCProgress
